@@ -56,6 +56,10 @@ CHECKS = {
  "C17": dict(tech="property-based testing (proptest): validity predicates on the three output documents (strict XML checker, JSON round trip, report parser) over generated results with nasty comment / metadata strings; a sample also through the real binary",
              text="For generated results whose comments and metadata contain <, >, &, quotes, backslashes, ]]>, -->, partial entities, combining and astral characters: to_xml() must pass a strict well-formedness checker and state kexp, AreaRef, Epm2, every Valores list and every factor of the struct; the JSON must be valid, read back into a result and re-serialise to the same document (up to the 3-decimal rounding); every labelled number and table of to_plain() must match the struct, table keys exact and sorted; a second evaluation must print the same labels and numbers. About 1-3 % of the cases also run cteepbd --json --xml --txt and apply the same checks to the files (and --txt == stdout report). Exploration.",
              note="Hand-written XML checker (no XML crate offline); comment content fidelity not claimed; one printed unit tolerance.", ref="4/C17"),
+
+ "C18": dict(tech="property-based testing (proptest): round trip through Display / FromStr for components and factors, differential evaluation of both sides, and a sample through cteepbd --oc/--of and a second run on the emitted files",
+             text="Generated component files (any layout: legacy lines without id, spacing, comment lines, BOM, CRLF, header; comments with '#', ',', ':'; metadata; AUX, SALIDA, DEMANDA, completion cases) and prepared factor sets are written with to_string() and parsed back: same metadata, demands within 0.005, components equal by (kind, id, tags) within 0.005 per printed value, same user comments, factors with the same keys in order within 0.0005, and the evaluation of the read-back pair within the accumulated printing error. About 1-2 % of the cases run cteepbd --oc/--of and re-run it on the emitted files, comparing the two reports. Exploration.",
+             note="Grouped comparison (re-reading re-normalises); by-service weighted energy compared with a conditioning-aware slack; CLI part for areas >= 0.01 m2 (metadata precision).", ref="4/C18"),
 }
 PENDING = {}
 TITLES = {}
